@@ -17,6 +17,10 @@ import MidnightZK.Proofs.C02.PublicInput
 import MidnightZK.Proofs.C02.GatePoly
 import MidnightZK.Model.C02.Fld
 import MidnightZK.Model.C02.CsParams
+import MidnightZK.Model.C02.Fill
+import MidnightZK.Proofs.C02.Fill
+import MidnightZK.Proofs.C02.Degree
+import MidnightZK.Proofs.C02.GateDegree
 /-!
 # C02 — the verifier enforces every constraint class; agrees with the mock checker
 
@@ -835,6 +839,240 @@ theorem blindingFactors_ge (nAdvice : Nat) (cs : Ids.VCS) :
 /-- Concrete reading on `coverCS` (2 advice columns with one query each, one trash argument, a
 lookup): degree 4 (lookup), `3 + 1 + 2 = 6` blinding factors, 2 column sets. -/
 example : Ids.csDegree coverCS = 4 ∧ Ids.blindingFactors 2 coverCS = 6 ∧ Ids.csNumSets coverCS = 2 := by decide
+
+
+/-! ## the degree bookkeeping covers every identity (`required_degree`, `ConstraintSystem::degree`) -/
+
+/-- **`ConstraintSystem::degree()` covers the degree of every identity polynomial.** For every
+constraint system (any gates, any lookups of any arity with input / table expressions of any
+degrees, any trash arguments whose selector is a column — `exprDegree q ≤ 1`, which selector
+replacement guarantees —, any permutation columns): every identity of the prover's numerator —
+every gate polynomial; the permutation rules, whose product rule multiplies `degree − 2` column
+factors per set; the five lookup rules, whose product rule multiplies the θ-COMPRESSED input
+(degree `max_i deg input_i`) by the θ-compressed table (degree `max_i deg table_i`); the trash rule —
+has degree at most `csDegree cs`, the mirror of `degree()` compared with the running code on every
+family member (`csparams`). Hence (`quotient_fits_pieces`) the quotient fits the `degree − 1` pieces
+and the extended domain key generation chooses (`C01.extended_domain_large_enough`). -/
+theorem degree_covers_identities (cs : Ids.VCS) (htrash : ∀ t ∈ cs.trash, Ids.exprDegree t.1 ≤ 1) :
+    ∀ d ∈ Ids.identityDegrees cs, d ≤ Ids.csDegree cs := by
+  intro d hd
+  simp only [Ids.identityDegrees, List.mem_append, List.mem_map, List.mem_flatMap] at hd
+  rcases hd with ((⟨g, hg, rfl⟩ | hp) | ⟨l, hl, hdl⟩) | ⟨t, ht, rfl⟩
+  · exact Ids.csDegree_ge_gate cs g hg
+  · have h3 := Ids.csDegree_ge_3 cs
+    unfold Ids.permIdDegrees at hp
+    split at hp
+    · cases hp
+    · simp only [List.mem_append, List.mem_cons, List.mem_nil_iff, or_false, List.mem_flatMap] at hp
+      rcases hp with (rfl | rfl) | ⟨set, hset, (rfl | rfl)⟩
+      · omega
+      · omega
+      · omega
+      · have := Ids.chunksFuel_length_le (Ids.csDegree cs - 2) _ _ set hset
+        omega
+  · exact Nat.le_trans (Ids.lookupIdDegrees_le l d hdl) (Ids.csDegree_ge_lookup cs l hl)
+  · exact Nat.le_trans (Ids.trashIdDegree_le t (htrash t ht)) (Ids.csDegree_ge_trash cs t ht)
+
+/-- A two-column `lookup_any` with input degrees `(2, 1)` and table degrees `(1, 2)` (the family's
+`LookupKind::MixedDeg`): the product rule has degree 6 = `degree()`. -/
+def mixedDegCS : Ids.VCS :=
+  { gates := [[.prod (.fixed 0 0) (.sum (.prod (.advice 0 0) (.advice 1 0)) (.neg (.advice 2 0)))]],
+    lookups := [([.prod (.fixed 1 0) (.advice 0 0), .advice 3 0], [.fixed 2 0, .prod (.fixed 3 0) (.fixed 4 0)])],
+    trash := [], permCols := [(.advice, 0)], adviceQueries := [(0, 0), (1, 0), (2, 0), (3, 0)],
+    fixedQueries := [(0, 0), (1, 0), (2, 0), (3, 0), (4, 0)], instanceQueries := [], degree := 6, blinding := 5, k := 5 }
+
+example : Ids.identityDegrees mixedDegCS = [3, 2, 3, 2, 3, 2, 3, 6, 2, 3] ∧ Ids.csDegree mixedDegCS = 6 := by decide
+
+/-- **The per-column formula is NOT enough** (seeded change C01-4: `2 + max_i (deg input_i + deg
+table_i)`): on `mixedDegCS` it yields 5 while the lookup's product identity has degree 6 — the
+statement of `degree_covers_identities` is false for it, the quotient no longer fits. -/
+theorem per_column_degree_formula_insufficient :
+    Ids.lookupRequiredDegreePerColumn (mixedDegCS.lookups.getD 0 ([], [])) = 5 ∧
+    6 ∈ Ids.lookupIdDegrees (mixedDegCS.lookups.getD 0 ([], [])) := by decide
+
+/-- **The quotient fits its pieces.** A numerator whose identities have degree at most `D` in units
+of column polynomials of degree `≤ n − 1` has at most `D·(n − 1) + 1` coefficients; divided by
+`X^n − 1` the quotient has at most `D·(n − 1) + 1 − n` coefficients, which fit the `D − 1` pieces of
+`n − 1` coefficients the prover commits to (`vanishing/prover.rs: construct`, `chunks_exact(n − 1)`)
+— with equality for `d = D`: there is no slack, an identity of degree `D + 1` does NOT fit. -/
+theorem quotient_fits_pieces (d D n : Nat) (hd : d ≤ D) (hD : 1 ≤ D) (hn : 1 ≤ n) :
+    d * (n - 1) + 1 - n ≤ (D - 1) * (n - 1) := by
+  have h1 : d * (n - 1) ≤ D * (n - 1) := Nat.mul_le_mul_right _ hd
+  have h2 : D * (n - 1) = (D - 1) * (n - 1) + (n - 1) := by
+    have : D = (D - 1) + 1 := by omega
+    conv => lhs; rw [this, Nat.add_mul, Nat.one_mul]
+  omega
+
+/-- No slack: with `n ≥ 2` an identity of degree `D + 1` overflows the `D − 1` pieces. -/
+theorem quotient_overflows_pieces (D n : Nat) (hD : 1 ≤ D) (hn : 2 ≤ n) :
+    (D - 1) * (n - 1) < (D + 1) * (n - 1) + 1 - n := by
+  have h2 : (D + 1) * (n - 1) = (D - 1) * (n - 1) + 2 * (n - 1) := by
+    have : D + 1 = (D - 1) + 2 := by omega
+    rw [this, Nat.add_mul]
+  omega
+
+/-- **The degree hypothesis of `C01.honest_verifies_algebraic` holds for every gate polynomial.** For
+every constraint system, every assignment table over a prime field with a primitive `n`-th root of
+unity and every gate polynomial `g`: the polynomial `GatePoly.exprPoly g` over the rotated column
+polynomials (degree `< n` each) has degree `< n + (n − 1)·q` with `q = csDegree − 1` the number of
+quotient pieces (`get_quotient_poly_degree()`), because its degree is at most
+`Expression::degree() · (n − 1)` and `degree()` is the maximum over all gates
+(`degree_covers_identities`). -/
+theorem gate_poly_degree_covered (t : Table) [Fact t.p.Prime] {ω : ZMod t.p}
+    (hω : IsPrimitiveRoot ω t.n) (hn : 0 < t.n) (cs : Ids.VCS) (g : Expr) (hg : g ∈ cs.gates.flatten) :
+    (GatePoly.exprPoly t ω g).natDegree < t.n + (t.n - 1) * (Ids.csDegree cs - 1) := by
+  have h1 := GatePoly.natDegree_exprPoly_le t hω hn g
+  have h2 : Ids.exprDegree g * (t.n - 1) ≤ Ids.csDegree cs * (t.n - 1) :=
+    Nat.mul_le_mul_right _ (Ids.csDegree_ge_gate cs g hg)
+  have h3 := Ids.csDegree_ge_3 cs
+  have h4 : Ids.csDegree cs * (t.n - 1) = (t.n - 1) * (Ids.csDegree cs - 1) + (t.n - 1) := by
+    have : Ids.csDegree cs = (Ids.csDegree cs - 1) + 1 := by omega
+    conv => lhs; rw [this, Nat.add_mul, Nat.one_mul, Nat.mul_comm]
+  omega
+
+/-! ## lookup tables: `fill_from_row` (key generation and mock checker) -/
+
+/-- **`fill_from_row` covers every usable row from `from_row` on** (`keygen.rs: Assembly::fill_from_row`
+= `Fill.keyFill`, `dev/mod.rs: MockProver::fill_from_row` = `Fill.mockFill`, both the loop
+`Fill.fillCol`): for every column of at least `usable` rows, every first row, every filler — after the
+call row `i` holds the filler iff `from_row ≤ i < usable`, the LAST usable row `usable − 1` included,
+and every other row is untouched. (Seeded change C02-3 stopped one row early: the last usable row of
+every table column kept 0.) -/
+theorem fill_covers_usable_rows {α : Type} (col : List α) (fromRow usable : Nat) (v : α)
+    (hlen : usable ≤ col.length) (i : Nat) :
+    (Fill.fillCol col fromRow usable v)[i]? = if fromRow ≤ i ∧ i < usable then some v else col[i]? :=
+  Fill.fillCol_getElem? col fromRow usable v i hlen
+
+/-- Non-vacuity: the table `{5, 6, 7}` in a column of 8 rows with 6 usable rows is padded with 5 on
+rows 3, 4, 5 — the last usable row holds 5, not 0. -/
+example : Fill.fillCol [5, 6, 7, 0, 0, 0, 0, 0] 3 6 5 = [5, 6, 7, 5, 5, 5, 0, 0] := by decide
+
+/-- **A filled table is its assigned rows plus the filler**: the values a lookup table column holds
+on the usable rows after `fill_from_row(col, from_row, filler)` (`0 < from_row < usable`) are exactly
+the values assigned on the rows below `from_row`, and the filler. In particular `0` is a table value
+only if it was assigned or is the filler. -/
+theorem table_values_after_fill (col : List Nat) (fromRow usable filler : Nat)
+    (hlen : usable ≤ col.length) (hfrom : fromRow < usable) (x : Nat) :
+    (∃ i, i < usable ∧ (Fill.fillCol col fromRow usable filler)[i]? = some x) ↔
+      (∃ i, i < fromRow ∧ col[i]? = some x) ∨ x = filler := by
+  constructor
+  · rintro ⟨i, hi, h⟩
+    rw [fill_covers_usable_rows col fromRow usable filler hlen] at h
+    by_cases hc : fromRow ≤ i ∧ i < usable
+    · rw [if_pos hc] at h; right; exact (Option.some.inj h).symm
+    · rw [if_neg hc] at h; left; exact ⟨i, by omega, h⟩
+  · rintro (⟨i, hi, h⟩ | rfl)
+    · refine ⟨i, by omega, ?_⟩
+      rw [fill_covers_usable_rows col fromRow usable filler hlen, if_neg (by omega)]; exact h
+    · refine ⟨fromRow, hfrom, ?_⟩
+      rw [fill_covers_usable_rows col fromRow usable x hlen, if_pos ⟨Nat.le_refl _, hfrom⟩]
+
+/-- **Key generation and the mock checker hold the same fixed columns**: for every domain size,
+number of fixed columns and EVERY sequence of `assign_fixed` / `fill_from_row` requests, replaying
+them through the mirror of `MockProver` and reading `Unassigned` as 0 gives exactly the columns the
+mirror of `keygen.rs: Assembly` produces — and one refuses a write iff the other does. (Both mirrors
+are compared with the real `pk.fixed_values` and the real `MockProver::fixed()` on every family
+member, `fixedcols` lines.) -/
+theorem keygen_mock_fixed_columns_agree (n usable nf : Nat) (ops : List Fill.FixedOp) :
+    (Fill.mockReplay n usable nf ops).map Fill.erase = Fill.keyReplay n usable nf ops := by
+  unfold Fill.mockReplay Fill.keyReplay
+  rw [Fill.foldlM_key_mock]
+  congr 1
+  simp [Fill.erase, Fill.cellNat]
+
+/-! ## `MockProver::run`: every unusable row of every advice column is poisoned -/
+
+/-- **The mock checker poisons exactly the unusable rows** (`dev/mod.rs: MockProver::run`,
+`enumerate().skip(usable_rows)`): row `i < n` of a fresh advice column is `Poison(i)` iff
+`usable ≤ i` — all `blinding_factors + 1` unusable rows, the row `usable` right after the last usable
+row included (seeded change C02-4 skipped `n − blinding_factors` rows and left that row `Unassigned`,
+i.e. 0) — and `Unassigned` otherwise. -/
+theorem mock_poisons_unusable_rows (n usable i : Nat) (hi : i < n) :
+    (Fill.mockAdviceInit n usable)[i]? = some (if usable ≤ i then Fill.Cell.poison i else Fill.Cell.unassigned) :=
+  Fill.mockAdviceInit_getElem? n usable i hi
+
+example : Fill.mockAdviceInit 8 5 = [.unassigned, .unassigned, .unassigned, .unassigned, .unassigned, .poison 5, .poison 6, .poison 7] := by decide
+
+/-- **Assignments never remove the poison**: `assign_advice` refuses unusable rows
+(`assert!(usable_rows.contains(&row))`), so after any sequence of accepted assignments every
+unusable row of the column still reads as poison in the row semantics. -/
+theorem mock_assign_preserves_poison (usable : Nat) (col col' : List Fill.Cell) (row v i : Nat)
+    (h : Fill.mockAssignAdvice usable col row v = some col') (hi : usable ≤ i)
+    (hp : (col[i]?).map Fill.Cell.toVal = some Val.poison) :
+    (col'[i]?).map Fill.Cell.toVal = some Val.poison := by
+  unfold Fill.mockAssignAdvice at h
+  split at h
+  · rename_i hc
+    cases h
+    rw [List.getElem?_set, if_neg (by omega)]
+    exact hp
+  · cases h
+
+/-- **Applying the poison in the model is the identity on a column of the real mock checker**: a
+column whose unusable rows all read poison (what `mock_poisons_unusable_rows` and
+`mock_assign_preserves_poison` give for `MockProver`) is unchanged by `Fill.applyPoison`, which the
+driver applies to the dumped advice columns before evaluating `rowSat` / `mockOK` — so the model's
+verdict does not depend on the mock checker having poisoned the right rows (seeded change C02-4: the
+dump then holds 0 on the first unusable row, the model still reads poison and rejects). -/
+theorem model_poison_is_identity_on_mock_columns (usable : Nat) (col : List Val)
+    (h : ∀ i, usable ≤ i → i < col.length → col[i]? = some Val.poison) :
+    Fill.applyPoison usable col = col := by
+  apply List.ext_getElem?
+  intro i
+  unfold Fill.applyPoison
+  rw [List.getElem?_map, List.getElem?_zipIdx]
+  cases hc : col[i]? with
+  | none => simp
+  | some v =>
+    have hi : i < col.length := by
+      rcases Nat.lt_or_ge i col.length with h' | h'
+      · exact h'
+      · rw [List.getElem?_eq_none h'] at hc; cases hc
+    by_cases hu : usable ≤ i
+    · have := h i hu hi
+      rw [hc] at this
+      simp [hu, Option.some.inj this]
+    · simp [hu]
+
+example : Fill.applyPoison 2 [.real 1, .real 0, .real 0, .poison] = [.real 1, .real 0, .poison, .poison] := by decide
+
+/-- **A gate that is active on a usable row and reads an unusable row is rejected by the row
+semantics** (`ConstraintPoisoned` of `MockProver`; the real prover puts a random value there). For
+the gate `f·(a + b(rot))` of the family's `GateKind::LastRow` — `f` a plain fixed column, no
+`Selector` —: on a row where the switch is a non-zero field element and `a` is a field element, if the
+cell `b` reads is poisoned the gate value is not zero, whatever the other cells hold; so neither
+`rowSat` nor `mockOK` accepts a table in which that row is among the checked rows. -/
+theorem gate_reading_poison_rejected (t : Table) (r fc ac bc : Nat) (rot : Int) (q a : Nat)
+    (hq : (Expr.fixed fc 0).eval t r = .real q) (hq0 : q % t.p ≠ 0)
+    (ha : (Expr.advice ac 0).eval t r = .real a)
+    (hb : (Expr.advice bc rot).eval t r = .poison) :
+    isZero ((Expr.prod (.fixed fc 0) (.sum (.advice ac 0) (.advice bc rot))).eval t r) = false := by
+  have : (Expr.prod (.fixed fc 0) (.sum (.advice ac 0) (.advice bc rot))).eval t r = .poison := by
+    show Val.mul t.p ((Expr.fixed fc 0).eval t r) (Val.add t.p ((Expr.advice ac 0).eval t r) ((Expr.advice bc rot).eval t r)) = .poison
+    rw [hq, ha, hb]
+    simp [Val.add, Val.mul, hq0]
+  rw [this]; rfl
+
+/-- Hence the whole check fails when such a row is a usable row of the table. -/
+theorem gate_reading_poison_fails_check (cs : CS) (t : Table) (r fc ac bc : Nat) (rot : Int) (q a : Nat)
+    (hg : Expr.prod (.fixed fc 0) (.sum (.advice ac 0) (.advice bc rot)) ∈ cs.gates)
+    (hr : r < t.n - (cs.blinding + 1))
+    (hq : (Expr.fixed fc 0).eval t r = .real q) (hq0 : q % t.p ≠ 0)
+    (ha : (Expr.advice ac 0).eval t r = .real a)
+    (hb : (Expr.advice bc rot).eval t r = .poison) :
+    rowSat cs t = false ∧ mockOK cs t = false := by
+  have hz := gate_reading_poison_rejected t r fc ac bc rot q a hq hq0 ha hb
+  have hgates : gatesOK cs t = false := by
+    unfold gatesOK
+    rw [Bool.eq_false_iff]
+    intro hall
+    rw [List.all_eq_true] at hall
+    have h1 := hall _ hg
+    rw [List.all_eq_true] at h1
+    have h2 := h1 r (List.mem_append_left _ (by simp [usableRows, hr]))
+    rw [hz] at h2
+    cases h2
+  simp [rowSat, mockOK, hgates]
 
 /-! ## the field constants the identity model reads (regenerated from `fq.rs` on every run) -/
 
